@@ -687,6 +687,30 @@ pub unsafe fn mprotect(addr: *mut c_void, len: size_t, prot: c_int) -> c_int {
     0
 }
 
+pub const MADV_DONTNEED: c_int = 4;
+pub const MADV_FREE: c_int = 8;
+/// `madvise`: advice that discards page contents (DONTNEED / FREE) over program text loses every byte of
+/// the page that differs from its backing object (all of it for anonymous code): that is a
+/// modification of executable memory the injector was never asked to make.
+pub unsafe fn madvise(addr: *mut c_void, len: size_t, advice: c_int) -> c_int {
+    let a = addr as u64;
+    let end = a.wrapping_add(sim::page_ceil(len as u64));
+    if advice == MADV_DONTNEED || advice == MADV_FREE {
+        let mut i = 0;
+        while i < sim::S.NE_ACT {
+            if sim::ENT[i].live {
+                let lo = sim::page_floor(sim::ENT[i].base);
+                assert!(
+                    !(a < lo.wrapping_add(sim::S.PAGE) && lo < end),
+                    "VERIF[C03]: madvise(DONTNEED/FREE) discards the contents of a page of program text (bytes of functions that were never named are lost)"
+                );
+            }
+            i += 1;
+        }
+    }
+    0
+}
+
 pub unsafe fn sysconf(_name: c_int) -> c_long {
     sim::S.PAGE as c_long
 }
